@@ -1,4 +1,5 @@
 mod batch;
+mod blind;
 mod check;
 mod clock;
 mod crash;
@@ -53,6 +54,11 @@ pub fn note_current_run(prop: &str, seed: u64, idx: u64) {
     }
 }
 
+pub static THOROUGH: std::sync::atomic::AtomicBool = std::sync::atomic::AtomicBool::new(false);
+pub fn thorough() -> bool {
+    THOROUGH.load(std::sync::atomic::Ordering::Relaxed)
+}
+
 pub const FS_PROPS: &[&str] = &["C01", "C02", "C03", "C04", "C05", "C06", "C07", "C08", "C16"];
 
 fn prop_static(p: &str) -> Option<&'static str> {
@@ -92,8 +98,8 @@ fn run_case(prop: &str, seed: u64) -> CaseOutcome {
     match engine_of(prop) {
         "fs-history" => fscheck::fs_case(prop, seed),
         "fs-crash" => crash::crash_case(prop_static(prop).unwrap(), seed),
-        "fs-fault" => faults::fault_case(seed, env_u64("VERIF_FAULT_POINTS", 400) as usize),
-        "dir-media" => dirmedia::dir_case(prop_static(prop).unwrap(), seed, std::env::var("VERIF_TIER").map_or(false, |t| t == "thorough")),
+        "fs-fault" => faults::fault_case(seed, env_u64("VERIF_FAULT_POINTS", if thorough() { 100_000 } else { 400 }) as usize),
+        "dir-media" => dirmedia::dir_case(prop_static(prop).unwrap(), seed, thorough()),
         "mount" => mount::mount_case(seed),
         "sd-sim" => sdrun::sd_case(prop_static(prop).unwrap(), seed),
         _ => panic!("no engine for {}", prop),
@@ -225,6 +231,7 @@ fn cmd_check(prop: &str, tier: &str) -> i32 {
             return 2;
         }
     };
+    THOROUGH.store(tier == "thorough", std::sync::atomic::Ordering::Relaxed);
     let seed = env_u64("VERIF_SEED", 1);
     let jobs = env_u64("VERIF_JOBS", 16) as usize;
     let runs = env_u64("VERIF_RUNS", runs_for(prop, tier));
@@ -239,7 +246,7 @@ fn cmd_check(prop: &str, tier: &str) -> i32 {
     assumptions.extend(extra_assumptions);
     let cfg = BatchCfg { prop, tier: tier.to_string(), seed, runs, jobs, budget_s: budget, level, rule, engine: engine_of(prop), components, assumptions };
     println!("check {} tier={} seed={} runs<={} jobs={} engine={}", prop, tier, seed, runs, jobs, cfg.engine);
-    let res = run_batch(&cfg, &known, |s, _i| run_case(prop, s));
+    let res = run_batch(&cfg, &known, |s, i| if prop == "C13" && thorough() && i < sdrun::ENUM_CASES { sdrun::sd_eval("C13", &sdrun::enumerated_flip_case(i)) } else { run_case(prop, s) });
     write_evidence(prop, &res.evidence);
     for (sig, (n, what)) in &res.known_hits {
         println!("KNOWN-FINDING: property={} {} [{} x{}]", prop, what, sig, n);
